@@ -14,7 +14,7 @@
    proposal mass one: C08; symmetric ESS criterion) - those are checked on the implementation by the exact
    transition matrices of harness/pv/props/C01.py. *)
 From PV Require Import Model.Isir Proofs.IsirProofs Model.Csmc Proofs.CsmcSupport Proofs.CsmcInvariant Proofs.AuxVar Proofs.CsmcTarget Proofs.PgAssembly.
-From PV Require Import Model.Grammar Model.Proposals Proofs.GrammarTable Proofs.GrammarPG Proofs.GrammarForests.
+From PV Require Import Model.Grammar Model.Proposals Proofs.GrammarTable Proofs.GrammarPG Proofs.GrammarForests Proofs.GrammarProposals.
 
 Theorem C01_csmc_invariant :
   forall (A : Type) (q : list A -> dist A) (om : list A -> Qc) (rs : @swarm A -> bool) (n : nat),
@@ -88,6 +88,50 @@ Theorem C01_pg_update_invariant_over_grammar :
     invariant (wlist gam (forests n on)) (pg_update (gorders n) (gcden n) (gsup on) qp g (gdec n) (genc n on) rs N ops).
 Proof. exact pg_update_invariant_grammar. Qed.
 Print Assumptions C01_pg_update_invariant_over_grammar.
+
+(* PhyClone's three proposals plugged in: with the densities of Model/Proposals.v (which the C08 theorems prove to be the
+   samplers' laws over all_places, with unit mass) the proposal premises are discharged.  What remains is only: a positive
+   intermediate target gt on histories whose value on complete paths is gamma x order density (the weights are its ratios:
+   C08_weights_telescope; gamma = exp(log_p_one): C03), and the symmetric resampling criterion.
+   q_boot po = bootstrap density with outlier proposal probability po (0 < po < 1 with outliers, po = 0 without);
+   q_full = letters in proportion to gt; q_semi = half on existing clones / outlier in proportion to gt, half uniform on
+   new clones. *)
+Theorem C01_pg_update_invariant_bootstrap :
+  forall (n : nat) (on : bool) (gam : list (list bool) -> Qc) (gt : list nat -> list place -> Qc),
+    (forall sg p, 0 < gt sg p) ->
+    (forall sg path, In sg (gorders n) -> In path (gpaths n on sg) ->
+       gt sg (rev path) = gam (gdec n sg (rev path)) * gcden n sg (gdec n sg (rev path))) ->
+    forall (rs : @swarm place -> bool), (forall m s, rs (bring m s) = rs s) ->
+    forall (N : nat) (ops : list op), S (count_upd ops) = n ->
+    forall po : Qc, po < 1 -> (on = true -> 0 < po) -> (on = false -> po = 0) ->
+    invariant (wlist gam (forests n on))
+      (pg_update (gorders n) (gcden n) (gsup on) (q_boot po) gt (gdec n) (genc n on) rs N ops).
+Proof. exact pg_update_invariant_bootstrap. Qed.
+Print Assumptions C01_pg_update_invariant_bootstrap.
+
+Theorem C01_pg_update_invariant_fully_adapted :
+  forall (n : nat) (on : bool) (gam : list (list bool) -> Qc) (gt : list nat -> list place -> Qc),
+    (forall sg p, 0 < gt sg p) ->
+    (forall sg path, In sg (gorders n) -> In path (gpaths n on sg) ->
+       gt sg (rev path) = gam (gdec n sg (rev path)) * gcden n sg (gdec n sg (rev path))) ->
+    forall (rs : @swarm place -> bool), (forall m s, rs (bring m s) = rs s) ->
+    forall (N : nat) (ops : list op), S (count_upd ops) = n ->
+    invariant (wlist gam (forests n on))
+      (pg_update (gorders n) (gcden n) (gsup on) (q_full on gt) gt (gdec n) (genc n on) rs N ops).
+Proof. exact pg_update_invariant_fully_adapted. Qed.
+Print Assumptions C01_pg_update_invariant_fully_adapted.
+
+Theorem C01_pg_update_invariant_semi_adapted :
+  forall (n : nat) (on : bool) (gam : list (list bool) -> Qc) (gt : list nat -> list place -> Qc),
+    (forall sg p, 0 < gt sg p) ->
+    (forall sg path, In sg (gorders n) -> In path (gpaths n on sg) ->
+       gt sg (rev path) = gam (gdec n sg (rev path)) * gcden n sg (gdec n sg (rev path))) ->
+    forall (rs : @swarm place -> bool), (forall m s, rs (bring m s) = rs s) ->
+    forall (N : nat) (ops : list op), S (count_upd ops) = n ->
+    invariant (wlist gam (forests n on))
+      (pg_update (gorders n) (gcden n) (gsup on) (q_semi on gt) gt (gdec n) (genc n on) rs N ops).
+Proof. exact pg_update_invariant_semi_adapted. Qed.
+Print Assumptions C01_pg_update_invariant_semi_adapted.
 
 (* a closed instance for every n, outlier setting, positive target, particle count and schedule: uniform proposals over
    all_places and the corresponding target-ratio weights - no premise about proposal or weights is left *)
